@@ -594,6 +594,17 @@ pub fn run(tier: &str) -> i32 {
             sp.push((print_file(&f), doc.json()));
         }
     }
+    // failing comparisons with range, regular-expression and structured right-hand sides (every renderer prints the operand)
+    for (lit, docv) in [(rng_i(5, 9, true, false), i(1)), (rng_f(1.5, 2.5, false, true), f(9.5)), (V::Regex("^zz[0-9]+$".into()), s("abc")), (l(vec![i(5), s("x"), V::Null]), i(1)), (m(vec![("k", l(vec![i(1)]))]), m(vec![("k", l(vec![i(2)]))])), (rng_i(5, 9, true, true), s("not a number"))] {
+        let doc = m(vec![("a", docv.clone()), ("b", l(vec![docv.clone(), i(7)]))]);
+        for op in [BinOp::In, BinOp::Eq] {
+            if op == BinOp::In && matches!(lit, V::Regex(_) | V::Map(_)) {
+                continue;
+            }
+            let f = File { lets: vec![], rules: vec![rule("r", vec![vec![bin(vec![key("a")], op, false, lit.clone()).with_msg("range or regex")]]), rule("q", vec![vec![bin(vec![key("b"), Part::All], op, false, lit.clone())]])], default: vec![] };
+            sp.push((print_file(&f), doc.json()));
+        }
+    }
     let r3 = crate::par::run(sp.len(), rep.seed as u64, None, Acc::new, |k, acc| {
         check_pair_all_configs(&sp[k].0, &sp[k].1, &cfgs, acc);
     }, Acc::merge);
